@@ -130,6 +130,24 @@ async def run_plan(net, hyg, plan):
         while q not in ("/", ""):
             remote0.setdefault(q, DIR)
             q = posixpath.dirname(q)
+    if plan.get("merge") and not plan["src_is_file"]:
+        # part of the tree is already there (second upload / merge into a prepared layout)
+        dest0 = pathlib.PurePosixPath(plan["destination"])
+        root0 = resolve(cwd, dest0 if plan["write_into"] else dest0 / plan["src_name"])
+        pre = random.Random(plan["seed"] + 1)
+        for rel, v in sorted(tree.items()):
+            if pre.random() < 0.5:
+                pth = root0.rstrip("/") + "/" + rel
+                remote0[pth] = DIR if v == DIR else b"stale"
+                q = posixpath.dirname(pth)
+                while q not in ("/", ""):
+                    remote0.setdefault(q, DIR)
+                    q = posixpath.dirname(q)
+        # a directory cannot be replaced by a file or vice versa: keep kinds consistent with the source
+        for pth in list(remote0):
+            relp = pth[len(root0.rstrip("/")) + 1:] if pth.startswith(root0.rstrip("/") + "/") else None
+            if relp in tree and (tree[relp] == DIR) != (remote0[pth] == DIR):
+                remote0[pth] = DIR if tree[relp] == DIR else b"stale"
     w = W.World(net, tree=remote0, block_size=plan.get("server_block", 8192))
     await w.start()
     if plan["fallback"]:
@@ -216,6 +234,10 @@ async def run_plan(net, hyg, plan):
                     viol.append({"key": f"recursive-list-differs:relative", "msg": f"{where}: list({rel!r}) gave {p2[:8]} expected {wantp[:8]}"})
         if op == "remove" and root != "/":
             mon["remove_tree"] += 1
+            rc = plan.get("remove_cwd", "outside")
+            if rc != "outside" and want.get(root) == DIR:
+                inner = [k for k in sorted(want) if k.startswith(root.rstrip("/") + "/") and want[k] == DIR]
+                await c.change_directory(inner[0] if (rc == "child" and inner) else root)
             try:
                 await c.remove(root)
             except Exception as e:
@@ -317,6 +339,7 @@ def gen_cases(tier, seed):
                 "op": rng.choice(["upload", "upload", "list", "remove", "download", "download"]),
                 "block": rng.choice([1, 7, 8192]), "server_block": rng.choice([7, 8192]),
                 "ldest": rng.choice(["", "ld", "ld/deeper"]), "lwrite_into": rng.random() < 0.5,
+                "merge": rng.random() < 0.3, "remove_cwd": rng.choice(["outside", "outside", "root", "child"]),
                 "local": "fs" if (tier == "thorough" and i % 5 == 0) or (tier == "quick" and i % 25 == 0) else "memory"}
         if src_is_file:
             plan["tree"] = None
